@@ -5,11 +5,14 @@ package recordlayer
 //symgo:param NP13EXTRA quick=2 thorough=4
 //symgo:param NCTCID quick=2 thorough=4
 //symgo:param NCTEXTRA quick=2 thorough=4
-//symgo:outside DTLSPlaintext (1.3) records carrying a ClientHello with legacy_record_version {254,255}: the encoder's special case needs a full ClientHello, whose codec is checked in the handshake harnesses; here only version {254,253} (and the zero value, which the encoder replaces by it) is round-tripped, other versions only need to be refused or to round-trip
+//symgo:outside DTLSPlaintext (1.3) records carrying a ClientHello are round-tripped for one minimal ClientHello shape only (no session id, cookie or extensions, one suite); the ClientHello codec itself is checked in the handshake harnesses
 //symgo:outside encrypted_record longer than the harness bound; the 2^14+256 upper limit is exercised with one concrete all-zero record of 16640 and one of 16641 bytes
 
 import (
+	"time"
+
 	"github.com/pion/dtls/v3/pkg/protocol"
+	"github.com/pion/dtls/v3/pkg/protocol/handshake"
 )
 
 // DTLS 1.3 DTLSPlaintext round trip (RFC 9147 section 4: type(1) legacy_record_version(2) epoch(2)=0
@@ -85,6 +88,57 @@ func zzPlaintext13RoundTrip() {
 	case zzKindFinished:
 		zzsymCover("p13_hs")
 	}
+}
+
+// DTLS 1.3 DTLSPlaintext carrying a ClientHello with legacy_record_version {254,255} (the only case
+// in which RFC 9147 lets a sender use that version): for a minimal ClientHello with symbolic random,
+// cipher suite, message sequence and record sequence number, whenever Marshal succeeds the record has
+// the RFC layout (type 22, version {254,255}, epoch 0, length = fragment size, fragment starting with
+// msg_type 1), Unmarshal accepts it with an equal header, the decoded content is a ClientHello handshake
+// message with the same fields, and re-encoding the decoded record gives the same bytes.
+//
+//symgo:entry covers=p13_ch_v10_ok,p13_ch_v10_refused
+func zzPlaintext13ClientHelloLegacyVersion() {
+	ch := &handshake.MessageClientHello{
+		Version:            protocol.Version1_2,
+		CipherSuiteIDs:     []uint16{zzsymU16("suite")},
+		CompressionMethods: []*protocol.CompressionMethod{{}},
+	}
+	copy(ch.Random.RandomBytes[:], zzsymBytes("rand", handshake.RandomBytesLength))
+	ch.Random.GMTUnixTime = time.Unix(int64(zzsymU32("gmt")), 0)
+	hs := &handshake.Handshake{Header: handshake.Header{MessageSequence: zzsymU16("msgseq")}, Message: ch}
+	r := PlaintextRecord13{Header: Header{Version: protocol.Version1_0, SequenceNumber: zzsymU64("seq")}, Content: hs}
+	zzsymAssume(r.Header.SequenceNumber <= MaxSequenceNumber)
+	raw, err := r.Marshal()
+	if err != nil {
+		zzsymCover("p13_ch_v10_refused")
+		return
+	}
+	zzsymAssert(len(raw) >= 13+12, "p13_ch_len")
+	zzsymAssert(raw[0] == 22, "p13_ch_type")
+	zzsymAssert(zzsymAnd(raw[1] == 254, raw[2] == 255), "p13_ch_version")
+	zzsymAssert(zzBE16(raw[3:]) == 0, "p13_ch_epoch")
+	zzsymAssert(zzBE48(raw[5:]) == r.Header.SequenceNumber, "p13_ch_seq")
+	zzsymAssert(int(zzBE16(raw[11:])) == len(raw)-13, "p13_ch_declared_len")
+	zzsymAssert(raw[13] == 1, "p13_ch_msg_type")
+	zzsymAssert(zzBE16(raw[13+4:]) == hs.Header.MessageSequence, "p13_ch_msg_seq")
+	var g PlaintextRecord13
+	zzsymAssert(g.Unmarshal(raw) == nil, "p13_ch_rt_accepts")
+	zzsymAssert(g.Header.Version == protocol.Version1_0, "p13_ch_rt_version")
+	zzsymAssert(g.Header.SequenceNumber == r.Header.SequenceNumber, "p13_ch_rt_seq")
+	zzsymAssert(int(g.Header.ContentLen) == len(raw)-13, "p13_ch_rt_len")
+	gh, ok := g.Content.(*handshake.Handshake)
+	zzsymAssert(ok, "p13_ch_rt_content_type")
+	gch, ok2 := gh.Message.(*handshake.MessageClientHello)
+	zzsymAssert(ok2, "p13_ch_rt_message_type")
+	zzsymAssert(gh.Header.MessageSequence == hs.Header.MessageSequence, "p13_ch_rt_msg_seq")
+	zzsymAssert(zzsymAnd(len(gch.CipherSuiteIDs) == 1, gch.Version == protocol.Version1_2), "p13_ch_rt_fields")
+	zzsymAssert(gch.CipherSuiteIDs[0] == ch.CipherSuiteIDs[0], "p13_ch_rt_suite")
+	zzsymAssert(gch.Random.RandomBytes == ch.Random.RandomBytes, "p13_ch_rt_random")
+	c, merr := g.Marshal()
+	zzsymAssert(merr == nil, "p13_ch_reencode_ok")
+	zzsymAssert(zzsymEqBytes(c, raw), "p13_ch_fixpoint")
+	zzsymCover("p13_ch_v10_ok")
 }
 
 // DTLS 1.3 DTLSPlaintext decoder against the RFC 9147 reference on every byte string of length
